@@ -334,6 +334,15 @@ func genC20(t *rapid.T) *C20Case {
 					}
 				}
 				first = idxs[rapid.IntRange(0, len(idxs)-1).Draw(t, "dupof")]
+				if rapid.IntRange(0, 3).Draw(t, "respell") == 0 {
+					// the duplicated value is written in hex / with a leading zero / negative (both times the same way)
+					sw.Cases[first].Val = []string{rapid.SampledFrom([]string{"0x10", "07", "010", "-0", "0X1f"}).Draw(t, "respelled")}
+					for i, cs := range sw.Cases {
+						if i != first && !cs.IsDefault && len(cs.Val) == 1 && cs.Val[0] == sw.Cases[first].Val[0] {
+							cs.Val = []string{"4711"}
+						}
+					}
+				}
 				nc.Val = append([]string{}, sw.Cases[first].Val...)
 				if rapid.IntRange(0, 2).Draw(t, "viaconst") == 0 {
 					// equal only after constant expansion
